@@ -22,6 +22,12 @@ SHM = "/dev/shm" if _os.path.isdir("/dev/shm") and _os.access("/dev/shm", _os.W_
 
 
 def _injected(kind="ENOSPC"):
+    """The injected failure: OSError with a given errno, or another Exception type by name."""
+    other = {"ValueError": ValueError, "RuntimeError": RuntimeError, "MemoryError": MemoryError,
+             "TypeError": TypeError, "KeyError": KeyError, "PermissionError": PermissionError,
+             "TimeoutError": TimeoutError}
+    if kind in other:
+        return other[kind](f"injected {kind}")
     code = getattr(errno, kind, errno.EIO)
     return OSError(code, f"injected {kind}")
 
@@ -328,7 +334,7 @@ class SimZipFile(_zipfile.ZipFile):
         if io is not None:
             io.seam("ZipFile", f"{io._rel(file)} mode={mode}")
             if self._sim_write and io.should_fire("zip_open", io.counter("zip_open")):
-                raise _injected("EACCES")
+                raise _injected(io.fired_in_scope.get("errno", "EACCES"))
         super().__init__(file, mode, *a, **k)
 
     def write(self, filename, arcname=None, *a, **k):
@@ -337,7 +343,7 @@ class SimZipFile(_zipfile.ZipFile):
             kk = io.counter("zip_write")
             io.seam("zip.write", str(arcname))
             if io.should_fire("zip_write", kk):
-                raise _injected("ENOSPC")
+                raise _injected(io.fired_in_scope.get("errno", "ENOSPC"))
         return super().write(filename, arcname, *a, **k)
 
     def close(self):
